@@ -9,6 +9,7 @@ import SF.Lemmas.LagRsi
 import SF.Lemmas.Flex
 import SF.Lemmas.CyberCycle
 import SF.Expr
+import SF.Lemmas.Pfe
 /-
   C18 — Bounded memory: state size does not grow with stream length.
   `size` counts the scalars held in heap buffers (deques / vecs) of a state; it is compared with the live heap bytes
@@ -120,5 +121,31 @@ theorem sma_sma_bounded (N M' : Nat) (hN : 0 < N) (hM : 0 < M') (xs : List α) (
   chain_bounded _ _ (0 + N) M'
     (fun xs a ha => chain_bounded echoV (smaCore N) 0 N (fun _ _ _ => Nat.le_refl 0) (sma_bounded N hN) xs a ha)
     (sma_bounded M' hM) xs s h
+
+section two_inner
+variable [Transc α]
+/-- EhlersFisherTransform keeps at most N window values and 2 outputs besides what its moving average keeps -/
+theorem fisher_bounded (N : Nat) (hN : 0 < N) (ma : View α) (maS : List α → Option α) (hR : Eft.Realises ma maS) (nA : Nat)
+    (hA : ∀ fed m, ma.run ma.init fed = .ok m → ma.size m ≤ nA) : Core.SizeBounded (eftCore N ma) (N + 2 + nA) := by
+  intro xs s h
+  obtain ⟨s', hs, hi⟩ := Eft.run_ok N hN ma maS hR xs
+  rw [h] at hs; cases hs
+  have h1 := hA _ _ hi.hma
+  have h2 := hi.hlen
+  have h3 : s.q.length ≤ N := by rw [hi.hq]; exact lastN_length_le N xs
+  show s.q.length + s.qOut.length + ma.size s.ma ≤ N + 2 + nA
+  omega
+
+/-- PolarizedFractalEfficiency keeps at most N window values besides what its moving average keeps -/
+theorem pfe_bounded (N : Nat) (hN : 3 ≤ N) (ma : View α) (maS : List α → Option α) (hR : Eft.Realises ma maS) (nA : Nat)
+    (hA : ∀ fed m, ma.run ma.init fed = .ok m → ma.size m ≤ nA) : Core.SizeBounded (pfeCoreU N ma) (N + nA) := by
+  intro xs s h
+  obtain ⟨s', hs, hi⟩ := Pfe.run_ok N hN ma maS hR xs
+  rw [h] at hs; cases hs
+  have h1 := hA _ _ hi.hma
+  have h3 : s.1.length ≤ N := by rw [hi.hq]; exact lastN_length_le N xs
+  show s.1.length + ma.size s.2.1 ≤ N + nA
+  omega
+end two_inner
 
 end SF.C18
